@@ -8,7 +8,10 @@ package c40
 import (
 	"errors"
 	"fmt"
+	"runtime"
+	"strings"
 	"sync"
+	"sync/atomic"
 	"testing"
 	"testing/synctest"
 	"time"
@@ -154,7 +157,116 @@ func makePlan(r *kit.Rand) *plan {
 	return p
 }
 
+// handoffCase (real time, no bubble): jobs are submitted one at a time to an otherwise idle Dissolver
+// with 1-2 workers, each as soon as the previous one has succeeded plus a varying delay of a few
+// nanoseconds, so that Submit lands all over the path a worker takes from finishing a job to parking in
+// the queue. A job that sits in the queue while every worker is parked is a lost wake-up. The verdict
+// does not depend on timing: a late job only makes the case look at a goroutine dump, and the violation
+// is "every worker goroutine is parked in sync.Cond.Wait inside queue.Wait, and the job submitted before
+// the dump is still not executed after it".
+func handoffCase(c *kit.Case) {
+	workers := 1 + (c.Index/handoffEvery)%2
+	jobs := 15000
+	if c.Tier == "thorough" {
+		jobs = 150000
+	}
+	// goroutines of dissolvers of earlier cases that are still around are not this case's workers
+	foreign := map[string]bool{}
+	for id := range queueWaiters() {
+		foreign[id] = true
+	}
+	d := dissolve.New(workers)
+	_ = d.Run()
+	defer func() { _ = d.Close() }()
+	var completed atomic.Int64
+	var sink atomic.Int64
+	r := c.R
+	base := r.Intn(61)
+	for i := 0; i < jobs; i++ {
+		for k := 0; k < (i+base)%61; k++ {
+			sink.Add(1)
+		}
+		failOnce := i%3 == 0
+		failed := false
+		if err := d.Submit(func() error {
+			if failOnce && !failed {
+				failed = true
+				return errScripted
+			}
+			completed.Add(1)
+			return nil
+		}); err != nil {
+			c.Violation("c40-submit-rejected-before-close", fmt.Sprintf("Submit #%d on an open dissolver returned %v", i, err), nil)
+			return
+		}
+		started := time.Now()
+		for spins := 1; completed.Load() != int64(i+1); spins++ {
+			if spins%4096 != 0 {
+				continue
+			}
+			runtime.Gosched()
+			waited := time.Since(started)
+			if waited < 300*time.Millisecond {
+				continue
+			}
+			// late: is it slow, or stranded?
+			parked, other := 0, 0
+			for id, isParked := range queueWaiters() {
+				switch {
+				case foreign[id]:
+				case isParked:
+					parked++
+				default:
+					other++
+				}
+			}
+			if parked == workers && other == 0 && completed.Load() != int64(i+1) {
+				c.Count("handoff_jobs", i)
+				c.Violation("c40-job-stranded-in-queue-while-all-workers-parked", fmt.Sprintf("job #%d (workers=%d) was accepted by an open dissolver %s ago and has not run, while all %d worker goroutines are parked in sync.Cond.Wait inside queue.Wait: the wake-up for it was lost", i, workers, waited.Round(time.Millisecond), workers), map[string]any{"workers": workers, "job": i, "spin_delay": (i + base) % 61})
+				return
+			}
+			c.Count("handoff_late_but_worker_active", 1)
+			if waited > 3*time.Minute {
+				c.Inconclusive(fmt.Sprintf("handoff case: job #%d not executed after %s although a worker is not parked", i, waited))
+				return
+			}
+			time.Sleep(20 * time.Millisecond)
+		}
+	}
+	c.Eval(jobs)
+	c.Count("handoff_cases", 1)
+	c.Count("handoff_jobs", jobs)
+	c.Nontrivial(fmt.Sprintf("handoff w%d", workers))
+}
+
+// queueWaiters reads a goroutine dump and returns, for every goroutine that is inside the dissolver
+// queue's Wait, whether it is parked in sync.Cond.Wait (true) or running / runnable (false).
+func queueWaiters() map[string]bool {
+	buf := make([]byte, 4<<20)
+	dump := string(buf[:runtime.Stack(buf, true)])
+	out := map[string]bool{}
+	for _, g := range strings.Split(dump, "\n\n") {
+		if !strings.HasPrefix(g, "goroutine ") || !strings.Contains(g, "internal/dissolve.(*queueImpl).Wait") {
+			continue
+		}
+		head := strings.SplitN(g, "\n", 2)[0]
+		id := strings.Fields(head)[1]
+		out[id] = strings.Contains(head, "[sync.Cond.Wait")
+	}
+	return out
+}
+
+const handoffEvery = 40
+
 func runCase(c *kit.Case) {
+	if c.Index%handoffEvery == handoffEvery-1 {
+		handoffCase(c)
+		return
+	}
+	kit.RunBubble(c, func() { bubbleCase(c) })
+}
+
+func bubbleCase(c *kit.Case) {
 	p := makePlan(c.R)
 	rec := &recorder{t0: time.Now(), execs: make([]int, len(p.Jobs))}
 	d := dissolve.New(p.Workers)
@@ -444,8 +556,7 @@ func TestC40(t *testing.T) {
 	kit.Main(t, kit.Spec{
 		ID:     "C40",
 		Level:  "fault_enumeration",
-		Bubble: true,
-		Rule: "one case = one synctest bubble with a Dissolver of 1..64 workers; 1-5 submit bursts (1-12 jobs, every 8th burst 30-150) from separate goroutines at virtual instants 0..60ms; each job scripted to fail its first f executions, f in {0,1,2,3,5,8}, each execution sleeping d in {0,1,1.5,3,10,50}ms of virtual time (the fault grid f x d x workers is drawn per job); Run at 0 or (20%) after the first submits; Close: 40% none before a horizon at which even one worker would have finished (then all accepted jobs must have succeeded), 50% at a uniformly random virtual instant of the expected makespan (half of them on a millisecond boundary so that it coincides with job ends/bursts), 10% at instant 0; 0-3 submits after Close returned. " +
+		Rule: "every 40th case is a real-time hand-off case: 15 000 (thorough 150 000) jobs submitted one at a time to an idle Dissolver with 1-2 workers, each right after the previous one succeeded plus a 0-60-iteration spin, every third failing once; a job that is late by 300 ms makes the case read a goroutine dump, and the violation is 'all worker goroutines parked in sync.Cond.Wait inside queue.Wait while the job accepted before the dump is still not executed after it' (a lost wake-up; timing decides nothing). All other cases: one synctest bubble with a Dissolver of 1..64 workers; 1-5 submit bursts (1-12 jobs, every 8th burst 30-150) from separate goroutines at virtual instants 0..60ms; each job scripted to fail its first f executions, f in {0,1,2,3,5,8}, each execution sleeping d in {0,1,1.5,3,10,50}ms of virtual time (the fault grid f x d x workers is drawn per job); Run at 0 or (20%) after the first submits; Close: 40% none before a horizon at which even one worker would have finished (then all accepted jobs must have succeeded), 50% at a uniformly random virtual instant of the expected makespan (half of them on a millisecond boundary so that it coincides with job ends/bursts), 10% at instant 0; 0-3 submits after Close returned. " +
 			"Every Submit call/return, execution start/end, Close call/return and the quiescence point after Close (synctest.Wait) is appended to one log under a mutex. Oracle: no execution of a job starts after one of its executions returned success; no execution starts after Close returned and the bubble settled; Submit is not rejected before Close was called; without Close every accepted job reaches success (exactly f+1 executions). " +
 			"Non-trivial = a case with at least one failed execution or a Close that found unfinished jobs; signature = buckets of (workers, jobs, failures, max f, close mode, executions running at close, unfinished at close, dropped, executions ending after close). evaluations = job executions.",
 		Assumptions: []string{
@@ -454,7 +565,7 @@ func TestC40(t *testing.T) {
 			"virtual time and quiescence as provided by testing/synctest; the execution log order is the order of the recorder mutex",
 		},
 		Cases:           map[string]int{"quick": 4000, "thorough": 60000},
-		RequireCounters: []string{"retries_until_success", "cases_no_close_all_jobs_succeeded", "cases_closed_mid", "cases_closed_early", "close_with_executions_running", "close_with_jobs_unfinished", "jobs_dropped_by_close", "failed_after_close_not_retried", "submit_after_close_rejected", "cases_all_workers_busy_at_once", "cases_run_called_after_first_submits"},
+		RequireCounters: []string{"handoff_cases", "handoff_jobs", "retries_until_success", "cases_no_close_all_jobs_succeeded", "cases_closed_mid", "cases_closed_early", "close_with_executions_running", "close_with_jobs_unfinished", "jobs_dropped_by_close", "failed_after_close_not_retried", "submit_after_close_rejected", "cases_all_workers_busy_at_once", "cases_run_called_after_first_submits"},
 		Run:             runCase,
 	})
 }
